@@ -214,7 +214,7 @@ class Registration:
         resp.update(getattr(self, "extra_response_members", None) or {})      # e.g. the Level-3 toJSON() copies authenticatorData / publicKey
         if self.transports is not None:
             resp["transports"] = self.transports
-        d = {"id": self.id_text, "rawId": b64u(self.cred_id), "response": resp, "type": self.typ, "clientExtensionResults": {}}
+        d = {"id": self.id_text, "rawId": b64u(self.cred_id), "response": resp, "type": self.typ, "clientExtensionResults": copy.deepcopy(getattr(self, "client_ext", None) or {})}
         if self.attachment is not None:
             d["authenticatorAttachment"] = self.attachment
         return d
@@ -315,8 +315,12 @@ def build(s):
         sig = signer.sign(signed_ad + signed_cdh, k.get("sign_scheme"))
         stmt = {"alg": alg, "sig": sig}
     elif fmt == "packed":
+        pexts = []
+        if k.get("packed_aaguid_ext"):
+            # id-fido-gen-ce-aaguid (1.3.6.1.4.1.45724.1.1.4): OCTET STRING holding the AAGUID, as attestation certificates of many models carry it
+            pexts.append((x509.UnrecognizedExtension(ObjectIdentifier("1.3.6.1.4.1.45724.1.1.4"), b"\x04\x10" + aaguid), False))
         leaf = pki.leaf(name("Forged Packed Attestation", [x509.NameAttribute(NameOID.ORGANIZATIONAL_UNIT_NAME, "Authenticator Attestation")]),
-                        att_cred.pk, nb=leaf_nb, na=leaf_na, signer_key=k.get("leaf_signer"), ca=(None if k.get("leaf_no_bc") else False))
+                        att_cred.pk, nb=leaf_nb, na=leaf_na, signer_key=k.get("leaf_signer"), ca=(None if k.get("leaf_no_bc") else False), exts=pexts)
         sig = raw_sign(k.get("att_signer", att_cred).sk, att_scheme, signed_ad + signed_cdh)
         stmt = {"alg": att_alg, "sig": sig, "x5c": chain(leaf)}
     elif fmt == "fido-u2f":
